@@ -293,6 +293,15 @@ def enumsFitB (l : Layout) (d : LayoutD) : Bool :=
 def regNamesB (l : Layout) (d : LayoutD) : Bool :=
   nodupFastB (d.regs.map (·.name)) && (l.kind == 7 || nodupFastB ((d.regs.map (·.uid)).filter (· != d.emptyName)))
 
+def otherUids (d : LayoutD) : List Nat :=
+  (d.regs.filter (fun r => r.uid != r.name && r.uid != d.emptyName)).map (·.uid)
+
+/-- `find_reg(name)` resolves the name of every register to that register: names are unique and non-empty, and no register's
+    name is the uid of ANOTHER register (`find_reg` matches name or uid, first hit wins) -/
+def findRegB (d : LayoutD) : Bool :=
+  nodupFastB (d.regs.map (·.name)) && !(d.regs.map (·.name)).contains d.emptyName &&
+  (orPow (d.regs.map (·.name)) &&& orPow (otherUids d)) == 0
+
 /-- no two bit-fields of one register share a name -/
 def fieldNamesB (d : LayoutD) : Bool := d.regs.all (fun rd => nodupFastB (rd.fields.map (·.name)))
 
@@ -396,15 +405,18 @@ def xmcdHeader (tag size blockType inst iface : Nat) : Nat :=
 def xmcdSizeField (hdr : Nat) : Nat := hdr &&& 0xFFF
 def xmcdTagField (hdr : Nat) : Nat := (hdr >>> 28) &&& 0xF
 
-/-- CRC-32/MPEG-2: poly 0x04C11DB7, init 0xFFFFFFFF, no reflection, no final xor (`CrcAlg.CRC32_MPEG`) -/
-def crcStep (crc : Nat) : Nat :=
-  if crc &&& 0x80000000 ≠ 0 then ((crc <<< 1) ^^^ 0x04C11DB7) &&& 0xFFFFFFFF else (crc <<< 1) &&& 0xFFFFFFFF
+/-- non-reflected (MSB first) 32-bit CRC with polynomial `poly` (without the x^32 term), start value `init`, final xor `fx` -/
+def crcStepP (poly crc : Nat) : Nat :=
+  if crc &&& 0x80000000 ≠ 0 then ((crc <<< 1) ^^^ poly) &&& 0xFFFFFFFF else (crc <<< 1) &&& 0xFFFFFFFF
 
-def crcByte (crc : Nat) (x : UInt8) : Nat :=
+def crcByteP (poly crc : Nat) (x : UInt8) : Nat :=
   let c := crc ^^^ (x.toNat <<< 24)
-  crcStep (crcStep (crcStep (crcStep (crcStep (crcStep (crcStep (crcStep c)))))))
+  crcStepP poly (crcStepP poly (crcStepP poly (crcStepP poly (crcStepP poly (crcStepP poly (crcStepP poly (crcStepP poly c)))))))
 
-def crc32Mpeg (b : Bytes) : Nat := b.foldl crcByte 0xFFFFFFFF
+def crcMsb32 (poly init fx : Nat) (b : Bytes) : Nat := (b.foldl (crcByteP poly) init) ^^^ fx
+
+/-- CRC-32/MPEG-2: poly 0x04C11DB7, init 0xFFFFFFFF, no reflection, no final xor (`CrcAlg.CRC32_MPEG`) -/
+def crc32Mpeg (b : Bytes) : Nat := crcMsb32 0x04C11DB7 0xFFFFFFFF 0 b
 
 /-- `XMCD.crc`: big-endian bytes of the CRC of the exported block -/
 def xmcdCrc (l : Layout) (vals : Vals) : PyRes Bytes :=
